@@ -7,6 +7,7 @@
 From Coq Require Import List ZArith Bool Lia.
 From Sakura.Model Require Import Base Cursor Length Event Song Token LoopMachine LexCore Tie RunCore.
 From Sakura.Spec Require Import MacroSpec LoopSpec.
+From Sakura.Gen Require Import VarRows DocMacros.
 From Sakura.Proofs Require Import LoopP.
 Import ListNotations.
 Open Scope Z_scope.
@@ -542,3 +543,310 @@ Proof. unfold redefine. cbn [rhythm_get]. rewrite (Z.eqb_sym x c). reflexivity. 
 
 Lemma rhythm_get_last_wins tbl x t1 t2 c : rhythm_get c ((x, t2) :: (x, t1) :: tbl) = rhythm_get c ((x, t2) :: tbl).
 Proof. cbn [rhythm_get]. destruct (x =? c); reflexivity. Qed.
+
+(* ------------------------------------------------------------------------------------------------ *)
+(* 4. executing a string variable / macro                                                             *)
+
+Lemma song_with_ls_same s : song_with_ls s (ls_of_song s) = s.
+Proof. destruct s; reflexivity. Qed.
+
+(* the text a TValue token stands for *)
+Definition call_text (args : option (list (option marg))) (body : list Z) : list Z :=
+  match args with Some a => subst_args 1 a body | None => body end.
+
+(* Executing the token = lexing its text at this point and executing the tokens as a nested exec():
+   when the text defines nothing (the lexer state comes back unchanged), that is exec() of the tokens on the
+   same song. *)
+Theorem macro_inline_step (ec : list tok -> res song -> res song) name args lineno s body tag toks :
+  vars_get name (s_vars s) = Some (VStr body tag) ->
+  lex (ls_of_song s) (call_text args body) lineno = Ok (toks, ls_of_song s) ->
+  step_song ec (TValue name args lineno) s = ec toks (Ok s).
+Proof.
+  intros Hv Hl. cbn [step_song]. rewrite Hv. cbn [bind]. fold (call_text args body). rewrite Hl. cbn [bind].
+  rewrite song_with_ls_same. reflexivity.
+Qed.
+
+(* in general: the nested exec() runs on the song updated with what the text defined at lex time *)
+Theorem macro_step_general (ec : list tok -> res song -> res song) name args lineno s body tag toks ls' :
+  vars_get name (s_vars s) = Some (VStr body tag) ->
+  lex (ls_of_song s) (call_text args body) lineno = Ok (toks, ls') ->
+  step_song ec (TValue name args lineno) s = ec toks (Ok (song_with_ls s ls')).
+Proof.
+  intros Hv Hl. cbn [step_song]. rewrite Hv. cbn [bind]. fold (call_text args body). rewrite Hl. reflexivity.
+Qed.
+
+(* --- more nesting fuel never changes an answer other than OutOfFuel --- *)
+Definition refines (ec1 ec2 : list tok -> res song -> res song) : Prop :=
+  forall X s r, ec1 X (Ok s) = r -> r <> OutOfFuel -> ec2 X (Ok s) = r.
+
+Lemma step_song_refines ec1 ec2 : refines ec1 ec2 ->
+  forall t s r, step_song ec1 t s = r -> r <> OutOfFuel -> step_song ec2 t s = r.
+Proof.
+  intros Href t s r. destruct t; try (intros <- _; reflexivity).
+  - (* TDiv *) cbn [step_song]. intros <- Hr.
+    match goal with |- context [ec2 ?X (Ok ?x)] => destruct (ec1 X (Ok x)) as [s2| | |] eqn:E end;
+      try (rewrite (Href _ _ _ E) by discriminate; reflexivity).
+    exfalso. apply Hr. reflexivity.
+  - (* TSub *) cbn [step_song]. intros <- Hr.
+    match goal with |- context [ec2 ?X (Ok ?x)] => destruct (ec1 X (Ok x)) as [s2| | |] eqn:E end;
+      try (rewrite (Href _ _ _ E) by discriminate; reflexivity).
+    exfalso. apply Hr. reflexivity.
+  - (* TValue *) cbn [step_song]. intros <- Hr.
+    match goal with |- bind ?A _ = _ => destruct A as [[body s1]| | |] end; cbn [bind] in *; try reflexivity.
+    match goal with |- bind ?A _ = _ => destruct A as [[toks ls']| | |] end; cbn [bind] in *; try reflexivity.
+    apply (Href _ _ _ eq_refl Hr).
+Qed.
+
+Lemma step_tok_refines ec1 ec2 : refines ec1 ec2 ->
+  forall t st r, step_tok ec1 t st = r -> r <> OutOfFuel -> step_tok ec2 t st = r.
+Proof.
+  intros Href t [s| | |] r; cbn [step_tok bind]; try (intros <- _; reflexivity).
+  apply step_song_refines. exact Href.
+Qed.
+
+Lemma res_eq_oof (r : res song) : r = OutOfFuel \/ r <> OutOfFuel.
+Proof. destruct r; [right|right|left|right]; try discriminate; reflexivity. Qed.
+
+Section MachineRefines.
+  Variables step1 step2 : tok -> res song -> res song.
+  Hypothesis Hstep : forall t st r, step1 t st = r -> r <> OutOfFuel -> step2 t st = r.
+  Notation mstep1 := (mstep tok (res song) step1 halted count_of).
+  Notation mstep2 := (mstep tok (res song) step2 halted count_of).
+
+  Lemma mstep_refines_none toks c : mstep1 toks c = None -> mstep2 toks c = None.
+  Proof.
+    unfold mstep. destruct (nth_error toks (pos (res song) c)) as [t|]; [|reflexivity].
+    destruct (halted (st (res song) c)); [reflexivity|].
+    destruct t as [n| | |d]; try discriminate.
+    - destruct (stack (res song) c) as [|it rest]; [discriminate|].
+      destruct (Nat.leb (count it) (S (index it))); [|discriminate].
+      match goal with |- context [Nat.ltb 0 ?e] => destruct (Nat.ltb 0 e) end; discriminate.
+    - destruct (stack (res song) c) as [|it rest]; [discriminate|].
+      match goal with |- context [Nat.ltb ?a ?b] => destruct (Nat.ltb a b) end; discriminate.
+  Qed.
+
+  Lemma mstep_refines_some toks c c1 : mstep1 toks c = Some c1 -> st (res song) c1 <> OutOfFuel -> mstep2 toks c = Some c1.
+  Proof.
+    unfold mstep. destruct (nth_error toks (pos (res song) c)) as [t|]; [|discriminate].
+    destruct (halted (st (res song) c)); [discriminate|].
+    destruct t as [n| | |d]; try (intros H _; exact H).
+    intros H Hg. injection H as <-. cbn [st] in Hg. rewrite (Hstep d _ _ eq_refl Hg). reflexivity.
+  Qed.
+
+  Lemma mrun_refines toks : forall fuel c c', mrun tok (res song) step1 halted count_of fuel toks c = Some c' ->
+    st (res song) c' <> OutOfFuel -> mrun tok (res song) step2 halted count_of fuel toks c = Some c'.
+  Proof.
+    induction fuel as [|f IH]; intros c c' H Hg; [discriminate|]. cbn [mrun] in *.
+    destruct (mstep1 toks c) as [c1|] eqn:E.
+    - destruct (res_eq_oof (st (res song) c1)) as [Hb|Hb].
+      + (* the step ran out of nesting fuel: the machine stops there, so the result is OutOfFuel *)
+        exfalso. destruct f as [|f']; [discriminate|]. cbn [mrun] in H.
+        assert (En : mstep1 toks c1 = None).
+        { unfold mstep. destruct (nth_error toks (pos (res song) c1)); [|reflexivity]. rewrite Hb. reflexivity. }
+        rewrite En in H. injection H as <-. apply Hg. exact Hb.
+      + rewrite (mstep_refines_some toks c c1 E Hb). apply IH; assumption.
+    - rewrite (mstep_refines_none toks c E). exact H.
+  Qed.
+End MachineRefines.
+
+Theorem exec_f_depth_mono steps : forall d, refines (exec_f d steps) (exec_f (S d) steps).
+Proof.
+  induction d as [|d IH]; intros X s r H Hg.
+  - cbn in H. subst r. exfalso. apply Hg. reflexivity.
+  - cbn [exec_f] in H. change (exec_f (S (S d)) steps X (Ok s)) with
+      (match run tok (res song) (step_tok (exec_f (S d) steps)) halted count_of steps (map to_ltok X) (Ok s) with
+       | Some s' => s' | None => OutOfFuel end).
+    unfold run in *.
+    destruct (mrun tok (res song) (step_tok (exec_f d steps)) halted count_of steps (map to_ltok X)
+                   (mkCfg (res song) 0 [] (Ok s))) as [c|] eqn:E; [|subst r; exfalso; apply Hg; reflexivity].
+    subst r.
+    rewrite (mrun_refines (step_tok (exec_f d steps)) (step_tok (exec_f (S d) steps))
+               (step_tok_refines _ _ IH) _ _ _ _ E Hg). reflexivity.
+Qed.
+
+(* --- structured programs (spec/LoopSpec.v) as token lists --- *)
+Definition plain_tok (t : tok) : bool :=
+  match t with TLoopBegin _ | TLoopBreak | TLoopEnd => false | _ => true end.
+
+Fixpoint leaves_ok_item (i : item tok) : bool :=
+  match i with
+  | Leaf d => plain_tok d
+  | Loop n a b => leaves_ok a && match b with None => true | Some b' => leaves_ok b' end
+  end
+with leaves_ok (p : prog tok) : bool :=
+  match p with
+  | PNil => true
+  | PCons i p' => leaves_ok_item i && leaves_ok p'
+  end.
+
+Definition unflat (l : list (ltok tok)) : list tok :=
+  map (fun x => match x with LBegin n => TLoopBegin n | LBreak => TLoopBreak | LEnd => TLoopEnd | LOther t => t end) l.
+Definition toks_of (p : prog tok) : list tok := unflat (flatten p).
+
+Lemma unflat_app a b : unflat (a ++ b) = unflat a ++ unflat b.
+Proof. apply map_app. Qed.
+
+Lemma to_ltok_unflat :
+  (forall i : item tok, leaves_ok_item i = true -> map to_ltok (unflat (flat_item i)) = flat_item i) /\
+  (forall p : prog tok, leaves_ok p = true -> map to_ltok (unflat (flatten p)) = flatten p).
+Proof.
+  apply item_prog_mutind.
+  - intros d H. cbn in *. destruct d; try discriminate; reflexivity.
+  - intros n a IHa H. cbn [leaves_ok_item] in H. rewrite andb_true_r in H.
+    rewrite flat_item_none. cbn [unflat map]. change (map _ (flatten a ++ [LEnd])) with (unflat (flatten a ++ [LEnd])).
+    rewrite unflat_app, map_app, (IHa H). reflexivity.
+  - intros n a b IHa IHb H. cbn [leaves_ok_item] in H. apply andb_prop in H. destruct H as [Ha Hb].
+    rewrite flat_item_some. cbn [unflat map].
+    change (map _ (flatten a ++ [LBreak] ++ flatten b ++ [LEnd])) with (unflat (flatten a ++ [LBreak] ++ flatten b ++ [LEnd])).
+    rewrite !unflat_app, !map_app, (IHa Ha), (IHb Hb). reflexivity.
+  - intros _. reflexivity.
+  - intros i p IHi IHp H. cbn [leaves_ok] in H. apply andb_prop in H. destruct H as [Hi Hp].
+    rewrite flatten_cons, unflat_app, map_app, (IHi Hi), (IHp Hp). reflexivity.
+Qed.
+
+Lemma toks_of_app p q : toks_of (papp p q) = toks_of p ++ toks_of q.
+Proof. unfold toks_of. rewrite flatten_app, unflat_app. reflexivity. Qed.
+
+Lemma toks_of_leaf t p : toks_of (PCons (Leaf t) p) = t :: toks_of p.
+Proof. reflexivity. Qed.
+
+Lemma leaves_ok_app p q : leaves_ok (papp p q) = leaves_ok p && leaves_ok q.
+Proof. induction p as [|i p IH]; [reflexivity|]. cbn [papp leaves_ok]. rewrite IH, andb_assoc. reflexivity. Qed.
+
+Section Structured.
+  Variable steps : nat.
+  Notation semd d := (sem tok (res song) (step_tok (exec_f d steps)) halted (count1 count_of)).
+  Notation sem_itemd d := (sem_item tok (res song) (step_tok (exec_f d steps)) halted (count1 count_of)).
+  Notation costd d := (cost tok (res song) (step_tok (exec_f d steps)) halted (count1 count_of)).
+
+  (* exec() on the token list of a structured program = the structured meaning (C05), with enough loop fuel *)
+  Lemma exec_f_structured d p r0 : leaves_ok p = true -> (costd d p r0 < steps)%nat ->
+    exec_f (S d) steps (toks_of p) r0 = semd d p r0.
+  Proof.
+    intros Hp Hc. cbn [exec_f]. unfold toks_of. rewrite (proj2 to_ltok_unflat p Hp).
+    rewrite (run_flat_total tok (res song) (step_tok (exec_f d steps)) halted count_of p r0 steps Hc). reflexivity.
+  Qed.
+
+  Lemma cost_app d p q r0 : costd d (papp p q) r0 = (costd d p r0 + costd d q (semd d p r0))%nat.
+  Proof.
+    revert r0. induction p as [|i p IH]; intros r0; [reflexivity|].
+    cbn [papp]. rewrite !cost_cons, sem_cons, IH. lia.
+  Qed.
+
+  (* A call between two balanced token lists (any loops inside them) against the same lists with the tokens of
+     the macro text written in place of the call.  The call-site condition is asked at the state in which the
+     call is reached. *)
+  Theorem macro_inline_seq d (p1 q p2 : prog tok) (tv : tok) (s0 : song) :
+    leaves_ok p1 = true -> leaves_ok q = true -> leaves_ok p2 = true -> plain_tok tv = true ->
+    (costd d (papp p1 (PCons (Leaf tv) p2)) (Ok s0) < steps)%nat ->
+    (costd d (papp p1 (papp q p2)) (Ok s0) < steps)%nat ->
+    (forall s1, semd d p1 (Ok s0) = Ok s1 -> s_break_flag s1 = 0 ->
+                step_song (exec_f d steps) tv s1 = exec_f d steps (toks_of q) (Ok s1)) ->
+    exec_f (S d) steps (toks_of p1 ++ [tv] ++ toks_of p2) (Ok s0) <> OutOfFuel ->
+    exec_f (S d) steps (toks_of p1 ++ toks_of q ++ toks_of p2) (Ok s0)
+    = exec_f (S d) steps (toks_of p1 ++ [tv] ++ toks_of p2) (Ok s0).
+  Proof.
+    intros H1 Hq H2 Htv Hc1 Hc2 Hsite Hgood.
+    change ([tv] ++ toks_of p2) with (toks_of (PCons (Leaf tv) p2)) in *.
+    rewrite <- !toks_of_app in *.
+    rewrite exec_f_structured in Hgood |- *; try assumption;
+      try (rewrite !leaves_ok_app; cbn [leaves_ok leaves_ok_item]; rewrite ?H1, ?Hq, ?H2, ?Htv; reflexivity).
+    rewrite exec_f_structured; try assumption;
+      try (rewrite !leaves_ok_app; cbn [leaves_ok leaves_ok_item]; rewrite ?H1, ?Hq, ?H2, ?Htv; reflexivity).
+    rewrite !sem_app in *. rewrite sem_cons in *.
+    rewrite !cost_app in Hc2.
+    remember (semd d p1 (Ok s0)) as r1 eqn:Er1.
+    destruct (halted r1) eqn:Hh.
+    - rewrite (proj1 (sem_halted tok (res song) _ halted _) _ r1 Hh).
+      rewrite (proj2 (sem_halted tok (res song) _ halted _) q r1 Hh). reflexivity.
+    - destruct r1 as [s1| | |]; try discriminate. cbn [halted] in Hh. apply negb_false_iff in Hh. apply Z.eqb_eq in Hh.
+      rewrite sem_item_leaf in *. cbn [halted] in *. rewrite Hh in *. cbn [Z.eqb negb] in *.
+      cbn [step_tok bind] in *. rewrite (Hsite s1 eq_refl Hh) in *.
+      destruct (res_eq_oof (exec_f d steps (toks_of q) (Ok s1))) as [Eo|Eo].
+      + exfalso. apply Hgood. rewrite Eo. apply (proj2 (sem_halted tok (res song) _ halted _)). reflexivity.
+      + rewrite <- (exec_f_depth_mono steps d _ _ _ eq_refl Eo).
+        rewrite exec_f_structured; [reflexivity|exact Hq|lia].
+  Qed.
+End Structured.
+
+(* ------------------------------------------------------------------------------------------------ *)
+(* 5. the built-in macros and rhythm letters of mml_def.rs against command.md                         *)
+
+(* every macro text documented in command.md is the text the program starts with *)
+Theorem builtin_macros_documented : forall name text,
+  In (name, text) doc_macro_rows -> vars_get name init_vars = Some (VStr text 0).
+Proof.
+  intros name text H. cbn [doc_macro_rows In] in H.
+  repeat (destruct H as [H|H]; [injection H as <- <-; vm_compute; reflexivity|]). contradiction.
+Qed.
+
+(* the four of the property are documented, in this order *)
+Lemma doc_macro_names : map fst doc_macro_rows =
+  [ [79; 99; 116; 97; 118; 101; 85; 110; 105; 115; 111; 110]      (* OctaveUnison *);
+    [85; 110; 105; 115; 111; 110; 53; 116; 104]                    (* Unison5th *);
+    [85; 110; 105; 115; 111; 110; 51; 116; 104]                    (* Unison3th *);
+    [85; 110; 105; 115; 111; 110] ].                               (* Unison *)
+Proof. reflexivity. Qed.
+
+(* the program has exactly one more built-in text macro, RndTiming, which command.md does not list *)
+Lemma code_macro_names : map fst (filter (fun r => fst (snd r) =? 1) var_rows) =
+  map fst doc_macro_rows ++ [[82; 110; 100; 84; 105; 109; 105; 110; 103]].
+Proof. vm_compute. reflexivity. Qed.
+
+(* rhythm letters: every documented letter except H has the documented text ... *)
+Theorem rhythm_letters_documented : forall c t,
+  In (c, t) doc_rhythm_rows -> c <> 72 -> rhythm_get c rhythm_rows = t.
+Proof.
+  intros c t H Hc. cbn [doc_rhythm_rows In] in H.
+  repeat (destruct H as [H|H]; [injection H as <- <-; try (exfalso; apply Hc; reflexivity); vm_compute; reflexivity|]).
+  contradiction.
+Qed.
+(* ... H is n50 in mml_def.rs and n44 in command.md *)
+Lemma rhythm_letter_H_differs :
+  rhythm_get 72 rhythm_rows = [110; 53; 48; 44] /\ In (72, [110; 52; 52; 44]) doc_rhythm_rows.
+Proof. split; [reflexivity|]. cbn. tauto. Qed.
+(* ... and m, M, L are defined by the program but absent from command.md *)
+Lemma rhythm_letters_undocumented :
+  filter (fun r => negb (existsb (Z.eqb (fst r)) (map fst doc_rhythm_rows))) rhythm_rows =
+  [(109, [110; 52; 54; 44]); (77, [110; 52; 55; 44]); (76, [110; 52; 51; 44])].
+Proof. reflexivity. Qed.
+
+(* ------------------------------------------------------------------------------------------------ *)
+(* 6. putting 4 together; the decidable and the propositional notion of occurrence                    *)
+
+Theorem macro_inline_exec (steps d : nat) (p1 q p2 : prog tok) name args ln (s0 : song) :
+  leaves_ok p1 = true -> leaves_ok q = true -> leaves_ok p2 = true ->
+  (cost tok (res song) (step_tok (exec_f d steps)) halted (count1 count_of)
+        (papp p1 (PCons (Leaf (TValue name args ln)) p2)) (Ok s0) < steps)%nat ->
+  (cost tok (res song) (step_tok (exec_f d steps)) halted (count1 count_of) (papp p1 (papp q p2)) (Ok s0) < steps)%nat ->
+  (forall s1, sem tok (res song) (step_tok (exec_f d steps)) halted (count1 count_of) p1 (Ok s0) = Ok s1 ->
+              s_break_flag s1 = 0 ->
+              exists body tag, vars_get name (s_vars s1) = Some (VStr body tag) /\
+                               lex (ls_of_song s1) (call_text args body) ln = Ok (toks_of q, ls_of_song s1)) ->
+  exec_f (S d) steps (toks_of p1 ++ [TValue name args ln] ++ toks_of p2) (Ok s0) <> OutOfFuel ->
+  exec_f (S d) steps (toks_of p1 ++ toks_of q ++ toks_of p2) (Ok s0)
+  = exec_f (S d) steps (toks_of p1 ++ [TValue name args ln] ++ toks_of p2) (Ok s0).
+Proof.
+  intros H1 Hq H2 Hc1 Hc2 Hsite Hgood.
+  apply (macro_inline_seq steps d p1 q p2 (TValue name args ln) s0); try assumption; [reflexivity|].
+  intros s1 Es1 Hb. destruct (Hsite s1 Es1 Hb) as [body [tag [Hv Hl]]].
+  apply (macro_inline_step _ name args ln s1 body tag _ Hv Hl).
+Qed.
+
+Lemma starts_true_iff p s : starts p s = true <-> exists r, s = p ++ r.
+Proof. rewrite starts_prefixb. apply prefixb_true_iff. Qed.
+
+Lemma contains_occurs p s : contains p s = true <-> occurs_in p s.
+Proof.
+  split.
+  - induction s as [|c r IH]; cbn [contains]; intros H.
+    + rewrite orb_false_r in H. apply starts_true_iff in H. destruct H as [r ->]. exists [], r. reflexivity.
+    + apply orb_prop in H. destruct H as [H|H].
+      * apply starts_true_iff in H. destruct H as [r' ->]. exists [], r'. reflexivity.
+      * destruct (IH H) as [a [b ->]]. exists (c :: a), b. reflexivity.
+  - intros [a [b ->]]. induction a as [|c a IH].
+    + cbn [app]. destruct (p ++ b) eqn:E; cbn [contains]; rewrite <- E.
+      * replace (starts p (p ++ b)) with true by (symmetry; apply starts_true_iff; eauto). reflexivity.
+      * replace (starts p (p ++ b)) with true by (symmetry; apply starts_true_iff; eauto). reflexivity.
+    + cbn [app contains]. rewrite IH. apply orb_true_r.
+Qed.
